@@ -71,7 +71,7 @@ def cases(rng, tier):
             i = rng.choice([j for j, q in enumerate(seqs) if q])
             s.append(seqs[i].pop(0))
             if rng.below(8) == 0:
-                s.append((rng.below(nt), rng.choice([1, 2]), 0))  # possibly disabled step
+                s.append((rng.below(nt), rng.choice([1, 2, 3, 3]), 0))  # possibly disabled step; 3 = the request dies between its critical sections
         cs.append(C.Case("cache_trace", flat(s), tag="random"))
     # long histories over more than 64 distinct keys
     for h in range(2 if tier == "quick" else 8):
@@ -155,6 +155,11 @@ def property_check(c, line):
                 want = k
             else:
                 pending[th] = k
+        elif kind == 3 and th in pending:
+            pending.pop(th)
+            generated.discard(th)
+            if ret:
+                return f"an aborted request of thread {th} returned a plan"
         elif kind == 1 and th in pending:
             generated.add(th)
         elif kind == 2 and th in pending and th in generated:
